@@ -134,7 +134,10 @@ class HasAccessibles(HasProperties):
                         except Exception as e:
                             self.log.debug("read_%s failed with %r", pname, e)
                             if isinstance(e, SECoPError):
-                                e.raising_methods.append(f'{self.name}.read_{pname}')
+                                qualname = f'{self.name}.read_{pname}'
+                                if e.raising_methods[-1:] != [qualname]:
+                                    # (a driver might raise the same error object again)
+                                    e.raising_methods.append(qualname)
                             self.announceUpdate(pname, err=e)
                             raise
                         self.announceUpdate(pname, value, validate=False)
@@ -691,11 +694,12 @@ class Module(HasAccessibles):
                 name = rfunc.__name__
                 self.pollInfo.pending_errors.add(name)  # trigger o.k. message after error is resolved
                 if isinstance(e, SECoPError):
-                    e.raising_methods.append(name)
+                    # do not modify e.raising_methods here: the error is already stored
+                    # in the parameter and announced, its text must not change any more
                     if e.silent:
-                        self.log.debug('%s', e.format(False))
+                        self.log.debug('%s: %s', name, e.format(False))
                     else:
-                        self.log.error('%s', e.format(False))
+                        self.log.error('%s: %s', name, e.format(False))
                     if raise_com_failed and isinstance(e, CommunicationFailedError):
                         raise
                 else:
